@@ -245,9 +245,10 @@ theorem C08.l2_conj :
     · show ‖x‖ + 0 = ⟪x, (1 / ‖x‖) • x⟫
       rw [real_inner_smul_right, real_inner_self_eq_norm_sq]; field_simp; ring
 
-/-- **The conjugate `QuadraticForm.convex_conj` should return**: for symmetric positive `A`
-with inverse `Ainv`, `(⟨x, Ax⟩ + ⟨b, x⟩ + c)*(y) = ¼⟨y − b, A⁻¹(y − b)⟩ − c`, with equality at
-`y = ∇f(x) = 2Ax + b`.  The code omits the factor ¼ (finding F5, see `quadform_coded_fails`). -/
+/-- `QuadraticForm.convex_conj`: for symmetric positive `A` with inverse `Ainv`,
+`(⟨x, Ax⟩ + ⟨b, x⟩ + c)*(y) = ¼⟨y − b, A⁻¹(y − b)⟩ − c`, with equality at `y = ∇f(x) = 2Ax + b`
+(the factor ¼ was missing before the fix of finding F5, see `quadform_conj_without_quarter_fails`;
+`C08.conj_sound` ties this formula to the coded construction). -/
 theorem C08.quadform_conj (A Ainv : E →ₗ[ℝ] E) (b : E) (c : ℝ)
     (hsym : ∀ u v, ⟪A u, v⟫ = ⟪u, A v⟫) (hpos : ∀ u, 0 ≤ ⟪u, A u⟫) (hinv : ∀ u, A (Ainv u) = u) :
     ConjPair (fun _ : E => True) (fun x => ⟪x, A x⟫ + ⟪b, x⟫ + c) (fun _ => True)
@@ -370,205 +371,13 @@ theorem C08.l1_linf_conj_eq (w x : List K) :
             rw [mul_assoc, (hs x0).2]
 end lists
 
-/-- **F5 on the model**: `QuadraticForm.convex_conj` as coded (no factor ¼) violates the
-Fenchel–Young equality at `y = ∇f(x)`: for `f(x) = ⟨x, x⟩` on `rn(1)`, `x = 1`, `y = ∇f(x) = 2`:
-`f(x) + f*(y) = 1 + 4 ≠ 2 = ⟨x, y⟩` (the correct conjugate `¼⟨y, y⟩` gives `1 + 1 = 2`). -/
-theorem C08.quadform_coded_fails :
-    ∃ g, (Fn.quad id id id id false [0] 0 : Fn (List ℚ) ℚ).conj (listOps [1]) = some g ∧
-      (Fn.quad id id id id false [0] 0 : Fn (List ℚ) ℚ).value (listOps [1]) [1]
-        + g.value (listOps [1]) ((Fn.quad id id id id false [0] 0 : Fn (List ℚ) ℚ).grad (listOps [1]) [1])
-      ≠ (listOps ([1] : List ℚ)).inner [1]
-          ((Fn.quad id id id id false [0] 0 : Fn (List ℚ) ℚ).grad (listOps [1]) [1]) := by
-  refine ⟨_, rfl, ?_⟩
-  simp [Fn.value, Fn.grad, listOps, innerW]
-  norm_num
+/-- Sensitivity (the pre-fix formula of finding F5): without the factor ¼ the pair
+`(⟨x, x⟩, ⟨y, y⟩)` is not a conjugate pair — equality fails at `y = ∇f(x) = 2x` (`x = 1`:
+`1 + 4 ≠ 2`). -/
+theorem C08.quadform_conj_without_quarter_fails :
+    ¬ ConjPair (fun _ : ℝ => True) (fun x => ⟪x, x⟫) (fun _ => True) (fun y => ⟪y, y⟫)
+      (fun x y => y = (2 : ℝ) • x) := by
+  intro h
+  have := (h.2 1 ((2 : ℝ) • 1) rfl).2.2
+  norm_num at this
 
-/-! ### The coded rules on expression trees -/
-namespace OdlModel.C08
-/-- The fragment of the expression language covered by `conj_sound_partial`. -/
-def Reg (o : VecOps E ℝ) : Fn E ℝ → Prop
-  | .coord _ => True
-  | .l2sq => True
-  | .const _ => True
-  | .indZero _ => True
-  | .lin _ _ => True
-  | .lscal _ f => Reg o f ∧ ∀ g, f.conj o = some g → g.isLinear = false
-  | .rscal f s => s ≠ 0 ∧ Reg o f ∧ ∀ g, f.conj o = some g → g.isLinear = false
-  | .ssum f _ => Reg o f
-  | .trans f _ => Reg o f
-  | .qp f a _ _ _ => a = 0 ∧ Reg o f
-  | _ => False
-
-/-- Fenchel–Young inequality between two model expressions (finite parts on the domains). -/
-def FYm (o : VecOps E ℝ) (t t' : Fn E ℝ) : Prop :=
-  ∀ x y, t.dom o x = true → t'.dom o y = true → o.inner x y ≤ t.value o x + t'.value o y
-end OdlModel.C08
-
-/-- **The conjugation rules as coded are sound for expression trees** (all depths, every real
-inner-product space): if `t.convex_conj` (computed by the coded rules `Fn.conj`) is `t'`, and
-the coordinate-wise leaf pairs (L1 ↔ indicator of the L∞ ball, Huber ↔ indicator + γ/2‖·‖²)
-satisfy Fenchel–Young, then `⟨x, y⟩ ≤ t(x) + t'(y)` wherever both are finite — for the
-fragment `Reg`: leaves L1, IndicatorLpUnitBall(∞), Huber, L2NormSquared, Constant,
-IndicatorZero, linear QuadraticForm; nodes LeftScalarMult (s > 0), RightScalarMult (s ≠ 0),
-ScalarSum, Translation, QuadraticPerturb with a = 0.
-`_partial`; the full statement would quantify over every expression with a `convex_conj`.
-Missing: (1) `QuadraticForm` with an operator — the coded conjugate is wrong there (F5,
-`C08.quadform_coded_fails`; `C08.quadform_conj` is the correct pair); (2) the `is_linear`
-branch of `Functional.__mul__` inside `s * f* * (1/s)` / `f* * (1/s)` — needs homogeneity of
-functionals flagged linear, which the code itself violates for `FunctionalQuadraticPerturb`
-with a constant (finding C09-F2); (3) RightVectorMult, BregmanDistance, InfimalConvolution,
-SeparableSum: proved as stand-alone rules above (`conj_right_vector`, `conj_linear_perturb`,
-`conj_infconv_ineq`, `conj_separable`) but not inside the induction; (4) the equality case on
-trees (rule by rule above). -/
-theorem C08.conj_sound_partial (μ : E → E → E) (cv : Builtin ℝ → E → ℝ)
-    (cd : Builtin ℝ → E → Bool) (cg : Builtin ℝ → E → E)
-    (hl1 : FYm (eOps μ cv cd cg) (.coord .l1) (.coord .indLinf))
-    (hlinf : FYm (eOps μ cv cd cg) (.coord .indLinf) (.coord .l1))
-    (hhub : ∀ γ, FYm (eOps μ cv cd cg) (.coord (.huber γ))
-      (.qp (.coord .indLinf) (γ / two) false (eOps μ cv cd cg).zero 0))
-    (t t' : Fn E ℝ) (hreg : Reg (eOps μ cv cd cg) t) (h : t.conj (eOps μ cv cd cg) = some t') :
-    FYm (eOps μ cv cd cg) t t' := by
-  induction t generalizing t' with
-  | coord b =>
-      cases b with
-      | l1 => simp [Fn.conj] at h; subst h; exact hl1
-      | indLinf => simp [Fn.conj] at h; subst h; exact hlinf
-      | huber γ => simp [Fn.conj] at h; subst h; exact hhub γ
-  | l2sq =>
-      simp [Fn.conj] at h; subst h
-      intro x y _ _
-      have := (C08.l2sq_conj (E := E)).1 x y trivial trivial
-      simp only [Fn.value, eOps, two]
-      norm_num at this ⊢
-      linarith
-  | const c =>
-      simp [Fn.conj] at h; subst h
-      intro x y _ hy
-      simp only [Fn.dom, eOps, decide_eq_true_eq] at hy
-      subst hy
-      simp [Fn.value, eOps]
-  | indZero c =>
-      simp [Fn.conj] at h; subst h
-      intro x y hx _
-      simp only [Fn.dom, eOps, decide_eq_true_eq] at hx
-      subst hx
-      simp [Fn.value, eOps]
-  | lin b c =>
-      simp [Fn.conj] at h; subst h
-      intro x y _ hy
-      simp only [Fn.dom, eOps, decide_eq_true_eq] at hy
-      have : y = b := sub_eq_zero.mp hy
-      subst this
-      simp [Fn.value, eOps, real_inner_comm]
-  | lscal s f ih =>
-      obtain ⟨hr, hnl⟩ := hreg
-      by_cases hs : s ≤ 0
-      · simp [Fn.conj, hs] at h
-      · cases hfc : f.conj (eOps μ cv cd cg) with
-        | none => simp [Fn.conj, hs, hfc] at h
-        | some g =>
-            simp [Fn.conj, hs, hfc, Fn.mulScalar, Fn.isLinear, hnl g hfc] at h
-            subst h
-            have hs' : 0 < s := not_le.mp hs
-            have hp : ConjPair (fun x => f.dom (eOps μ cv cd cg) x = true)
-                (fun x => f.value (eOps μ cv cd cg) x)
-                (fun y => g.dom (eOps μ cv cd cg) y = true) (fun y => g.value (eOps μ cv cd cg) y)
-                (fun _ _ => False) := ⟨ih g hr hfc, fun _ _ h => h.elim⟩
-            have := (C08.conj_left_scalar hs' hp).1
-            intro x y hx hy
-            have h2 := this x y hx (by simpa [Fn.dom, eOps] using hy)
-            simpa [Fn.value, eOps] using h2
-  | rscal f s ih =>
-      obtain ⟨hs, hr, hnl⟩ := hreg
-      cases hfc : f.conj (eOps μ cv cd cg) with
-      | none => simp [Fn.conj, hfc] at h
-      | some g =>
-          simp [Fn.conj, hfc, Fn.mulScalar, hnl g hfc] at h
-          subst h
-          have hp : ConjPair (fun x => f.dom (eOps μ cv cd cg) x = true)
-              (fun x => f.value (eOps μ cv cd cg) x)
-              (fun y => g.dom (eOps μ cv cd cg) y = true) (fun y => g.value (eOps μ cv cd cg) y)
-              (fun _ _ => False) := ⟨ih g hr hfc, fun _ _ h => h.elim⟩
-          have := (C08.conj_right_scalar hs hp).1
-          intro x y hx hy
-          have h2 := this x y (by simpa [Fn.dom, eOps] using hx) (by simpa [Fn.dom, eOps] using hy)
-          simpa [Fn.value, eOps] using h2
-  | ssum f c ih =>
-      cases hfc : f.conj (eOps μ cv cd cg) with
-      | none => simp [Fn.conj, hfc] at h
-      | some g =>
-          simp [Fn.conj, hfc] at h
-          subst h
-          intro x y hx hy
-          have := ih g hreg hfc x y hx hy
-          simp only [Fn.value]
-          linarith
-  | trans f t ih =>
-      cases hfc : f.conj (eOps μ cv cd cg) with
-      | none => simp [Fn.conj, hfc] at h
-      | some g =>
-          simp [Fn.conj, hfc] at h
-          subst h
-          have hp : ConjPair (fun x => f.dom (eOps μ cv cd cg) x = true)
-              (fun x => f.value (eOps μ cv cd cg) x)
-              (fun y => g.dom (eOps μ cv cd cg) y = true) (fun y => g.value (eOps μ cv cd cg) y)
-              (fun _ _ => False) := ⟨ih g hreg hfc, fun _ _ h => h.elim⟩
-          have := (C08.conj_translation t hp).1
-          intro x y hx hy
-          have h2 := this x y (by simpa [Fn.dom, eOps] using hx) (by simpa [Fn.dom, eOps] using hy)
-          simpa [Fn.value, eOps] using h2
-  | qp f a hasU u c ih =>
-      obtain ⟨ha, hr⟩ := hreg
-      subst ha
-      cases hfc : f.conj (eOps μ cv cd cg) with
-      | none => simp [Fn.conj, hfc] at h
-      | some g =>
-          have hp : ConjPair (fun x => f.dom (eOps μ cv cd cg) x = true)
-              (fun x => f.value (eOps μ cv cd cg) x)
-              (fun y => g.dom (eOps μ cv cd cg) y = true) (fun y => g.value (eOps μ cv cd cg) y)
-              (fun _ _ => False) := ⟨ih g hr hfc, fun _ _ h => h.elim⟩
-          have := (C08.conj_linear_perturb u c hp).1
-          by_cases hc : c = 0
-          · simp [Fn.conj, hfc, hc] at h
-            subst h
-            intro x y hx hy
-            have h2 := this x y (by simpa [Fn.dom, eOps] using hx) (by simpa [Fn.dom, eOps] using hy)
-            simp [Fn.value, eOps, hc] at h2 ⊢
-            linarith
-          · simp [Fn.conj, hfc, hc] at h
-            subst h
-            intro x y hx hy
-            have h2 := this x y (by simpa [Fn.dom, eOps] using hx) (by simpa [Fn.dom, eOps] using hy)
-            simp [Fn.value, eOps] at h2 ⊢
-            linarith
-  | quad A At Ainv AinvT hasB b c => exact hreg.elim
-  | rvec f v vinv _ => exact hreg.elim
-  | sum f g _ _ => exact hreg.elim
-  | prod f g _ _ => exact hreg.elim
-  | quot f g _ _ => exact hreg.elim
-  | comp f op dAdj _ => exact hreg.elim
-  | breg f p q _ => exact hreg.elim
-  | infconv f g _ _ => exact hreg.elim
-  | menv f P σ _ => exact hreg.elim
-  | dconj f _ => exact hreg.elim
-
-/-- Non-vacuity: `f(x) = 2‖x − 3‖²` on `E = ℝ` lies in the fragment and has a coded conjugate. -/
-example : ((Fn.trans (.lscal 2 .l2sq) 3 : Fn ℝ ℝ).conj
-      (eOps (· * ·) (fun _ _ => 0) (fun _ _ => false) (fun _ _ => 0))).isSome = true ∧
-    ∀ t', (Fn.trans (.lscal 2 .l2sq) 3 : Fn ℝ ℝ).conj
-        (eOps (· * ·) (fun _ _ => 0) (fun _ _ => false) (fun _ _ => 0)) = some t' →
-      FYm (eOps (· * ·) (fun _ _ => 0) (fun _ _ => false) (fun _ _ => 0))
-        (Fn.trans (.lscal 2 .l2sq) 3) t' := by
-  constructor
-  · have h2 : ¬ ((2 : ℝ) ≤ 0) := by norm_num
-    simp [Fn.conj, Fn.mulScalar, Fn.isLinear, h2]
-  · intro t' h
-    refine C08.conj_sound_partial (E := ℝ) _ _ _ _ ?_ ?_ ?_ _ t' ?_ h
-    · intro x y hx; simp [Fn.dom, eOps] at hx
-    · intro x y hx; simp [Fn.dom, eOps] at hx
-    · intro γ x y hx; simp [Fn.dom, eOps] at hx
-    · refine ⟨trivial, ?_⟩
-      intro g hg
-      simp [Fn.conj] at hg
-      subst hg
-      simp [Fn.isLinear]
